@@ -397,8 +397,20 @@ def _run_cases_once(ctx, name, header, checks, chunk=400, timeout=600):
     bad = []
     for ci, rel, p in procs:
         out = p.communicate()[0]
-        if p.returncode != 0:
-            raise RuntimeError(f"coqc {rel} failed: {tail(out, 1500)}")
+        rc = p.returncode
+        # A coqc that was killed from outside (out-of-memory killer, `timeout` under heavy load)
+        # says nothing at all.  Such a run carries no verdict, so it is repeated alone (a verdict
+        # always needs the @@RESULT line of a coqc that exited 0: nothing can be hidden here).
+        for attempt in range(2):
+            if rc == 0 or out.strip() not in ("", "Killed"):
+                break
+            time.sleep(2 + 5 * attempt)
+            q = subprocess.run(["timeout", str(2 * timeout), "coqc", "-Q", ".", "SV", rel],
+                               cwd=COQ, stdout=subprocess.PIPE, stderr=subprocess.STDOUT, text=True)
+            rc, out = q.returncode, q.stdout
+            ctx.count("coqc_silent_exit_retried")
+        if rc != 0:
+            raise RuntimeError(f"coqc {rel} failed (exit {rc}): {tail(out, 1500)}")
         m = re.search(r"@@RESULT\s*(.*)", out, re.S)
         if not m:
             raise RuntimeError(f"no result from {rel}: {tail(out, 800)}")
